@@ -366,6 +366,17 @@ def make_tasks(ctx):
                     tasks.append({'spec': spec, 'm': m, 'seed': rng.randrange(1 << 30), 'elems': elems,
                                   'exps': exps, 'ops': ops[c0:c0 + chunk], 'exp_order': order, 'mode': mode,
                                   'cost': cost})
+    # exponent fields GF(q) with q <= m: mpc.SecFld(q) is lifted to an extension field GF(q^e) and the local exponent
+    # of repeat(public base, secret exponent) is the constant coefficient of lambda_i * x_i reduced mod q
+    sym7 = {'family': 'sym', 'n': 7}
+    G7 = c27.make_group(sym7)
+    for m, q in ((3, 2), (3, 3), (5, 3), (5, 5)) + (((4, 3), (5, 2)) if ctx.thorough else ()):
+        for rep in range(ctx.scale(2, 8)):
+            base = _cycle(7, q)
+            exps = [('fld', x) for x in range(q)] + [('fld', rng.randrange(q)) for _ in range(2)]
+            ops = [('pubbase', i) for i in range(len(exps))] + [('public', rng.randrange(len(exps)))]
+            tasks.append({'spec': sym7, 'm': m, 'seed': rng.randrange(1 << 30), 'elems': [base, G7.enc(G7.sample(rng))],
+                          'exps': exps, 'ops': ops, 'exp_order': q, 'mode': 'lifted-exponent-field', 'cost': 'cheap'})
     return tasks
 
 
